@@ -167,6 +167,26 @@ func c13Template(r *rand.Rand) Case {
 		Coq: "CTemplate " + gTmpl(parts) + " " + gStr(path) + " " + gNode(data) + " " + gNode(after), Fail: fail, Nontrivial: len(parts) >= 2}
 }
 
+// the YAML node decoder keeps every scalar as its source text: compare structure and scalar text
+func strScalars(v any) any {
+	switch x := v.(type) {
+	case map[string]any:
+		m := map[string]any{}
+		for k, c := range x {
+			m[k] = strScalars(c)
+		}
+		return m
+	case []any:
+		l := make([]any, len(x))
+		for i, c := range x {
+			l[i] = strScalars(c)
+		}
+		return l
+	default:
+		return fmt.Sprint(v)
+	}
+}
+
 // template with parseAs yaml (Go side only: the YAML parser is external)
 func c13TemplateYaml(r *rand.Rand) Case {
 	d := anyToContainer(map[string]any{"a": "1", "b": "x"})
@@ -189,7 +209,50 @@ func c13TemplateYaml(r *rand.Rand) Case {
 	if err2 == nil {
 		fail = append(fail, "template with a failing action returned no error")
 	}
-	return Case{Kind: "template-yaml", Desc: map[string]any{"stored": got}, Fail: fail, Nontrivial: true, Key: fmt.Sprint(r.Int())}
+	// trim: whitespace around the rendered text is removed BEFORE it is stored or parsed
+	tv := []struct {
+		tmpl string
+		trim bool
+		yaml bool
+	}{
+		{"  a: {{ .a }}\nb: {{ .b }}\n", true, true},
+		{"\n\n  k: [{{ .a }}, 2]\nz: {{ .b }}  \n\t", true, true},
+		{"\t{{ .b }}: 1\n", true, true},
+		{"  {{ .a }} and {{ .b }} \n", true, false},
+		{"  {{ .a }} and {{ .b }} \n", false, false},
+		{"a: {{ .a }}\n", false, true},
+	}[r.Intn(6)]
+	{
+		d2 := anyToContainer(map[string]any{"a": "1", "b": "x"})
+		top := &pipeline.TemplateOp{Template: tv.tmpl, Path: "out", Trim: &tv.trim}
+		if tv.yaml {
+			top.ParseAs = &y
+		}
+		var err3 error
+		if pn := guard(func() { err3 = pipeline.New(pipeline.WithData(d2)).Execute(top) }); pn != "" {
+			fail = append(fail, "panic in TemplateOp(trim): "+pn)
+		}
+		text := strings.NewReplacer("{{ .a }}", "1", "{{ .b }}", "x").Replace(tv.tmpl)
+		if tv.trim {
+			text = strings.TrimSpace(text)
+		}
+		var want2 any = text
+		wantErr := false
+		if tv.yaml {
+			var v any
+			if e := yaml.Unmarshal([]byte(text), &v); e != nil {
+				wantErr = true
+			}
+			want2 = strScalars(v)
+		}
+		got2 := nodeToAny(d2).(map[string]any)["out"]
+		if wantErr != (err3 != nil) {
+			fail = append(fail, fmt.Sprintf("template(trim=%v,yaml=%v) %q: error=%v, expected error=%v", tv.trim, tv.yaml, tv.tmpl, err3, wantErr))
+		} else if !wantErr && !reflect.DeepEqual(strScalars(got2), want2) {
+			fail = append(fail, fmt.Sprintf("template(trim=%v,yaml=%v) %q stored %#v, expected %#v", tv.trim, tv.yaml, tv.tmpl, got2, want2))
+		}
+	}
+	return Case{Kind: "template-yaml", Desc: map[string]any{"stored": got, "variant": tv.tmpl, "trim": tv.trim, "yaml": tv.yaml}, Fail: fail, Nontrivial: true, Key: fmt.Sprint(r.Int())}
 }
 
 func c13Patch(r *rand.Rand) Case {
@@ -203,6 +266,26 @@ func c13Patch(r *rand.Rand) Case {
 	}
 	if rp.HasVal {
 		ym["value"] = rp.Val
+	}
+	// valueFrom: "Only considered when Value is nil" — an immediate value always wins; alone, the
+	// value is the node found at that path of the data
+	vfMode := ""
+	if needVal := rp.Op == "add" || rp.Op == "replace" || rp.Op == "test"; needVal && len(data) > 0 && r.Intn(3) == 0 {
+		k := sortedKeys(data)[r.Intn(len(data))]
+		vf := k
+		src := data[k]
+		if sm, ok := src.(map[string]any); ok && len(sm) > 0 && r.Intn(2) == 0 {
+			k2 := sortedKeys(sm)[r.Intn(len(sm))]
+			vf, src = k+"."+k2, sm[k2]
+		}
+		ym["valueFrom"] = vf
+		if rp.HasVal && r.Intn(2) == 0 {
+			vfMode = "both"
+		} else {
+			vfMode = "only"
+			delete(ym, "value")
+			rp.HasVal, rp.Val = true, deepCopy(src)
+		}
 	}
 	bs, _ := yaml.Marshal(ym)
 	var po pipeline.PatchOp
@@ -221,7 +304,9 @@ func c13Patch(r *rand.Rand) Case {
 		fail = append(fail, "failing patch op changed the data")
 	}
 	val := "None"
-	if po.Value != nil && po.Value.Value() != nil {
+	if vfMode == "only" {
+		val = "(Some " + gNode(rp.Val) + ")" // the document's own node at valueFrom, taken from the plain input
+	} else if po.Value != nil && po.Value.Value() != nil {
 		val = "(Some " + gNode(nodeToAny(po.Value.Value())) + ")"
 	}
 	kind := map[string]string{"add": "KAdd", "remove": "KRemove", "replace": "KReplace", "move": "KMove", "copy": "KCopy", "test": "KTest"}[rp.Op]
@@ -229,7 +314,7 @@ func c13Patch(r *rand.Rand) Case {
 	if rp.HasFrom {
 		from = ym["from"].(string)
 	}
-	return Case{Kind: "patch", Desc: map[string]any{"data": data, "op": ym, "error": err != nil, "after": after},
+	return Case{Kind: "patch", Desc: map[string]any{"data": data, "op": ym, "error": err != nil, "after": after, "valueFrom": vfMode},
 		Coq:  "CPatch " + kind + " " + gStr(ym["path"].(string)) + " " + gStr(from) + " " + val + " " + gNode(data) + " " + gNode(after) + " " + gBool(err == nil),
 		Fail: fail, Nontrivial: err == nil}
 }
@@ -573,7 +658,7 @@ func c13Lenient(r *rand.Rand) Case {
 func init() {
 	register(&Prop{
 		ID:   "C13",
-		Rule: "kinds: set (data documents x payload maps x target paths absent/leaf/container/list item/root x strategies merge/replace/unset/unknown, missing data), template (tiny templates, target paths incl. list items; parseAs yaml and failing templates Go side), patch (JSON patch operations decoded from YAML through PatchOp vs the C09 model), import (text / binary / default / invalid mode of arbitrary bytes, at a path or the root), export (yaml/json/properties/text/unknown x whole document / unresolved / leaf / list / container: documented default or error, never a panic; outcome classified from the written file), roundtrip (export a subtree as yaml|json, import it elsewhere: equal up to the bare codec's normalisation), env (variables under a unique prefix x include/exclude prefixes x path), lenient (strings without '{{', unbalanced braces, failing actions). Every op: data outside the target unchanged (Go side). Non-trivial: target exists / export of a non-container / partial env selection / failing render. Distinct by Gallina term.",
+		Rule: "kinds: set (data documents x payload maps x target paths absent/leaf/container/list item/root x strategies merge/replace/unset/unknown, missing data), template (tiny templates, target paths incl. list items; parseAs yaml, trim with and without parseAs on whitespace-significant text, and failing templates Go side), patch (JSON patch operations decoded from YAML through PatchOp vs the C09 model; a third of the value-carrying ops also or only give valueFrom: an immediate value wins, alone it is the node at that path), import (text / binary / default / invalid mode of arbitrary bytes, at a path or the root), export (yaml/json/properties/text/unknown x whole document / unresolved / leaf / list / container: documented default or error, never a panic; outcome classified from the written file), roundtrip (export a subtree as yaml|json, import it elsewhere: equal up to the bare codec's normalisation), env (variables under a unique prefix x include/exclude prefixes x path), lenient (strings without '{{', unbalanced braces, failing actions). Every op: data outside the target unchanged (Go side). Non-trivial: target exists / export of a non-container / partial env selection / failing render. Distinct by Gallina term.",
 		Gen: func(r *rand.Rand, tier string, idx int) Case {
 			switch idx % 10 {
 			case 0, 1, 2:
